@@ -138,7 +138,10 @@ func ZZ_C09_cache() {
 	// s2: the first certificate with its hash, its signature or one mask bit changed (or unchanged)
 	s2 := &common.Snapshot{Version: s.Version, NodeId: s.NodeId, RoundNumber: s.RoundNumber, Timestamp: ts, Hash: s.Hash}
 	s2.Signature = &crypto.CosiSignature{Mask: s.Signature.Mask, Signature: s.Signature.Signature}
-	switch vr.Choose(0, 3) {
+	switch vr.Choose(0, 4) {
+	case 4:
+		// another signer set of the same size: member 4 and member 5 exchanged
+		s2.Signature.Mask ^= (1 << 4) | (1 << 5)
 	case 1:
 		s2.Hash = zzH()
 		vr.Assume(s2.Hash.String() != mainnetNodeRemovalHackSnapshotHash)
